@@ -128,11 +128,26 @@ impl S3 for FileSystem {
     async fn delete_bucket(&self, req: S3Request<DeleteBucketInput>) -> S3Result<S3Response<DeleteBucketOutput>> {
         let input = req.input;
         let path = self.get_bucket_path(&input.bucket)?;
-        if path.exists() {
-            try_!(fs::remove_dir_all(path).await);
-        } else {
+        if path.exists().not() {
             return Err(s3_error!(NoSuchBucket));
         }
+
+        // a bucket that still holds objects is not deleted;
+        // directories left behind by deleted objects do not count as objects
+        let mut dir_queue: VecDeque<PathBuf> = default();
+        dir_queue.push_back(path.clone());
+        while let Some(dir) = dir_queue.pop_front() {
+            let mut iter = try_!(fs::read_dir(dir).await);
+            while let Some(entry) = try_!(iter.next_entry().await) {
+                let file_type = try_!(entry.file_type().await);
+                if file_type.is_dir().not() {
+                    return Err(s3_error!(BucketNotEmpty));
+                }
+                dir_queue.push_back(entry.path());
+            }
+        }
+
+        try_!(fs::remove_dir_all(path).await);
         Ok(S3Response::new(DeleteBucketOutput {}))
     }
 
